@@ -20,7 +20,7 @@ RULE = (
     "per-chain key array. non-trivial = >=2 chains, >=2 kernels and chunk < some "
     "duration; distinct by configuration hash"
 )
-REQUIRED = ["per_chain_keys_equal_split", "second_build_identical", "identical_runs_bitwise", "int_seed_equals_key", "all_keys_distinct",
+REQUIRED = ["identical_across_processes", "per_chain_keys_equal_split", "second_build_identical", "identical_runs_bitwise", "int_seed_equals_key", "all_keys_distinct",
             "other_chains_unaffected", "first_sample_is_initial_value", "first_sample_is_jittered_value",
             "jitter_keys_distinct", "multi_chain_initial_values"]
 ANCHORS = ["goose/builder.py:EngineBuilder.build", "goose/builder.py:EngineBuilder.set_initial_values",
@@ -353,6 +353,34 @@ def case_jitter(case, res):
                   "reported_calls": len(reports)}
 
 
+def case_hashseed(case, res):
+    """Same configuration in two fresh processes that differ only in PYTHONHASHSEED."""
+    import json
+    import os
+    import subprocess
+    import sys
+
+    outs = []
+    for hs in case["hashseeds"]:
+        env = dict(os.environ, PYTHONHASHSEED=str(hs))
+        r = subprocess.run([sys.executable, "-m", "vlib.c10_child", json.dumps(case["cfg"])], capture_output=True, text=True,
+                           env=env, timeout=600)
+        line = [ln for ln in r.stdout.splitlines() if ln.startswith("RESULT ")]
+        if r.returncode != 0 or not line:
+            if "liesel" in r.stderr and "Traceback" in r.stderr:
+                res.violation("child-run-raised", f"run with PYTHONHASHSEED={hs} raised: {r.stderr[-800:]}", case)
+                return
+            raise RuntimeError(f"child failed: {r.stderr[-1500:]}")
+        outs.append(json.loads(line[0][7:]))
+    res.mon("identical_across_processes")
+    if any(o["sha1"] != outs[0]["sha1"] for o in outs[1:]):
+        res.violation("not-reproducible-across-processes",
+                      f"identical seed/model/kernels/schedule give different results in processes with PYTHONHASHSEED "
+                      f"{case['hashseeds']}: first samples {[o['first'] for o in outs]}", case)
+    res.nontriv(("hashseed", str(case["cfg"])))
+    res.sample = {"kind": "hashseed", "cfg": case["cfg"], "hashseeds": case["hashseeds"]}
+
+
 def gen_cfg(rng, nuts_ok=True):
     spec = gen_schedule(rng, max_epochs=4, max_dur=8)
     return {"spec": spec, "chains": int(rng.integers(1, 5)), "rw_step": float(rng.choice([0.3, 1.0, 2.5])),
@@ -386,13 +414,21 @@ def gen_cases(tier, seed):
         kinds = [str(rng.choice(["shift", "noisy"])) for _ in jk]
         cases.append({"kind": "jitter", "idx": i, "cfg": cfg, "engine_seed": int(rng.integers(0, 2 ** 30)),
                       "multi": bool(i % 2), "jitter_keys": jk, "jitter_kinds": kinds, "cost": 6})
+    for i in range(3 if q else 20):
+        rng = rng_for(seed, "c10-hash", i)
+        keys = ["alpha", "zeta", "mu", "beta"]
+        rng.shuffle(keys)
+        cases.append({"kind": "hashseed", "idx": 90000 + i, "hashseeds": [1, 2, 3],
+                      "cfg": {"seed": int(rng.integers(2 ** 30)), "chains": 2, "kernel_keys": keys[: int(rng.integers(2, 5))],
+                              "jitter_keys": keys[: int(rng.integers(2, 5))], "spec": [[3, 4, 1], [4, 4, 1]]}, "cost": 12})
     return cases
 
 
 def run_case(case):
     res = CaseResult(case)
     res.evals = 1
-    {"repro": case_repro, "keys": case_keys, "isolation": case_isolation, "jitter": case_jitter}[case["kind"]](case, res)
+    {"repro": case_repro, "keys": case_keys, "isolation": case_isolation, "jitter": case_jitter,
+     "hashseed": case_hashseed}[case["kind"]](case, res)
     return res
 
 
